@@ -52,7 +52,7 @@ def _case(check: Check, cfg, record=False):
     rig.run_sym(check, "structured", fn, claims, replay=rep, timeout_ms=10000, case_id=repr(sorted(cfg.items())), sample=cfg, record=record)
     # ground companion (NOT solver-decided): the same oracle natively through sparse output and the narwhals materializer
     for extra in ({"output": "sparse"}, {"output": "numpy", "materializer": "narwhals"}, {"output": "sparse", "materializer": "narwhals"}):
-        if "materializer" in extra and len(cc.SPECS[cfg["spec_id"]]) > 3:
+        if "materializer" in extra and len(cc.SPECS[cfg["spec_id"]]) > 3 and cc.SPECS[cfg["spec_id"]][3]:
             continue  # lag() has no implementation for narwhals series (NotImplementedError by design)
         p = {"kind": "c07_config", "cfg": {**cfg, **extra}, "tag": None}
         try:
